@@ -88,6 +88,7 @@ func Content(name string) *idp.Assertion {
 		attrs := []idp.Attribute{
 			{Name: "mail", FriendlyName: idp.S("Mail"), NameFormat: idp.S("urn:oasis:names:tc:SAML:2.0:attrname-format:basic"), Values: []string{mail}, XsiType: true},
 			{Name: "roles", Values: []string{role, " user\n"}}, // a value whose surrounding white space is signed content
+			{Name: "dept", Values: []string{`R&D <dev> "q" 'x' &amp; ]]`}}, // a value made of characters that serialisation must escape
 		}
 		return &idp.Assertion{
 			ID: id, Version: "2.0", IssueInstant: RFC(Now.Add(-time.Second)), Issuer: idp.S(IdpIssuer),
